@@ -104,7 +104,7 @@ Proof.
     apply by_hash_spec in EB; auto. destruct EB as (W1 & O1 & A1 & R1).
     destruct r1 as [i|].
     + destruct R1 as [Hi Hh].
-      apply remove_idx_spec in H; auto; [|rewrite A1; auto]. destruct H as (W & O & _ & _ & H).
+      apply remove_idx_spec in H; auto. destruct H as (W & O & _ & _ & H).
       rewrite A1 in H. unfold valid_idx in H. rewrite HL in H.
       replace ((0 <=? Z.of_nat i) && (Z.of_nat i <? Z.of_nat (sN s)))%Z with true in H by lia.
       rewrite Nat2Z.id in H. cbn [andb] in H.
@@ -194,7 +194,7 @@ Proof.
   - rewrite has_hash_nth by auto. intros [i [Hi Hh]]. apply (R i Hi Hh).
 Qed.
 
-Theorem memory_safe : forall tr ops, run_ok (init tr) ops -> oob (fst (run (init tr) ops)) = 0.
+Theorem memory_safe_runok : forall tr ops, run_ok (init tr) ops -> oob (fst (run (init tr) ops)) = 0.
 Proof.
   intros tr ops Hok. destruct (run (init tr) ops) as [s' rs] eqn:E.
   apply run_refines in E; auto; [|apply init_inv]. destruct E as (_ & O & _). cbn. rewrite O. reflexivity.
@@ -206,6 +206,35 @@ Proof.
   intros tr ops s' rs Hok E. apply run_refines in E; auto; [|apply init_inv].
   destruct E as ([_ N] & _ & T). split; auto.
 Qed.
+
+(* storage invariant and memory safety need no hypothesis at all (since the unsorted removal no longer
+   indexes the particle array with N_active) *)
+Lemma step_wf : forall s o s' r, wf s -> step s o = (s', r) -> wf s' /\ oob s' = oob s.
+Proof.
+  intros s o s' r Hwf H. destruct o as [p|z keep|h keep|i h|h| |z|k]; cbn [step] in H.
+  - inversion H; subst. destruct (add_spec s p Hwf) as (A1 & A2 & _). auto.
+  - apply remove_idx_spec in H; auto. destruct H as (W & O & _). auto.
+  - unfold remove_hash in H. destruct (by_hash s h) as [s1 [i|]] eqn:EB;
+      apply by_hash_spec in EB; auto; destruct EB as (W1 & O1 & _).
+    + apply remove_idx_spec in H; auto. destruct H as (W & O & _). split; auto. lia.
+    + inversion H; subst. auto.
+  - apply set_hash_spec in H; auto. destruct H as (W & O & _). auto.
+  - destruct (by_hash s h) as [s1 r1] eqn:EB. inversion H; subst.
+    apply by_hash_spec in EB; auto. destruct EB as (W1 & O1 & _). auto.
+  - inversion H; subst. destruct Hwf. unfold wf, remove_all; cbn. auto.
+  - inversion H; subst. destruct Hwf. unfold wf; cbn. auto.
+  - inversion H; subst. destruct Hwf. unfold wf; cbn. auto.
+Qed.
+
+Theorem memory_safe_all : forall ops s, wf s -> wf (fst (run s ops)) /\ oob (fst (run s ops)) = oob s.
+Proof.
+  induction ops as [|o ops IH]; intros s Hwf; cbn [run]; [cbn; auto|].
+  destruct (step s o) as [s1 x] eqn:E1. apply step_wf in E1; auto. destruct E1 as [W1 O1].
+  specialize (IH s1 W1). destruct (run s1 ops) as [s2 xs]. cbn in *. destruct IH. split; auto. lia.
+Qed.
+
+Theorem memory_safe : forall tr ops, oob (fst (run (init tr) ops)) = 0.
+Proof. intros. destruct (memory_safe_all ops (init tr)) as [_ O]; [split; cbn; lia|]. rewrite O. reflexivity. Qed.
 
 (* a state whose lookup table is stale: built, then invalidated by removals and re-hashing; N_active is
    set, and the unsorted removal of an active particle that follows exercises the new contiguity rule *)
